@@ -4,30 +4,29 @@ MANIFEST = {
     'technique': 'Lean 4 refinement theorem: the engine model refines a declarative (schedule-free) semantics, for ALL '
                  'histories by invariants; the semantics itself is checked against the real engine at quiescence; '
                  'paired-schedule differential runs of the real engine; engine model refinement check after every event',
-    'text': 'SCHEDULE INDEPENDENCE OF THE OUTCOME IS A THEOREM of the engine model (Mistral.Props.C02Sem). Mistral.Sem is a '
-            'declarative semantics of the data-free direct workflows Mistral.Engine models: which tasks run, their final '
-            'states and next_tasks and the final workflow state as a function of the definition and the action results ONLY '
-            '(least fixed point over the acyclic graph: start tasks run; a completed task routes to its fired on-clauses; a '
-            'non-join target runs; a join runs its action when the required number of inbound tasks routed to it and is ERROR '
-            'when that can no longer happen; verdict = check_and_complete rule). For every definition of the class '
-            '(SpecOK of WP-A: unique names, satisfiable join: N, acyclic; a start task; known targets - joins all / one / N, '
-            'forks, on-error / on-complete, guards that do not fire, several activations, partial joins re-run by late branches), '
-            'every oracle and EVERY plain history (deliveries in any order, pause / resume anywhere, no stop, no lost action, '
-            'executor results = the oracle\'s): sound (at every moment every row is a task of the semantic set and every completed '
-            'row has the prescribed state and next_tasks), complete_at_quiescence_partial (nothing pending and not PAUSED: the '
-            'workflow state is the semantic verdict and the rows are EXACTLY the semantic set of (name, state, next_tasks)), hence '
-            'outcome_schedule_independent_partial (two quiescent histories have equal outcomes), '
-            'pause_resume_same_outcome_partial (a quiescent history with pause / resume = any quiescent history without), '
-            'outcome_schedule_independent_nopause (full strength for histories without operator commands), '
-            'outcome_schedule_independent_nofail (any two histories when no plain task fails). The two exclusions of '
-            'the _partial theorems are genuine defects: NoStaleRestart (outcome_schedule_independent_full_fails / '
-            'pause_resume_same_outcome_full_fails: resume re-queues start_task(first_run=False) for an IDLE task; delivered after '
-            'the task FAILED it runs the task again - proved witness replayed on the real engine, known finding) and PausedClean '
-            '(C01 finding). Ties: stream `sem` (real engine run to quiescence under random schedules + pause/resume + cache '
-            'eviction, compared with the semantics computed by the Lean driver - not with another run - and real rows sound on '
-            'every prefix), stream `core` (every explored schedule equals the one Lean model after EVERY event), stream `engine` '
-            'mode paired (programs with data flow: two schedules, +evict, +restart, equal outcomes). Local theorems (C02): '
-            'join_verdict_order_independent, verdict_order_independent, merge_order_independent.',
+    'text': 'SCHEDULE INDEPENDENCE OF THE OUTCOME IS A THEOREM of the engine model, at full strength (Mistral.Props.C02Sem). '
+            'Mistral.Sem is a declarative semantics of the data-free direct workflows Mistral.Engine models: which tasks run, '
+            'their final states and next_tasks and the final workflow state as a function of the definition and the action '
+            'results ONLY (least fixed point over the acyclic graph: start tasks run; a completed task routes to its fired '
+            'on-clauses; a non-join target runs; a join runs its action when the required number of inbound tasks routed to it '
+            'and is ERROR when that can no longer happen; verdict = check_and_complete rule). For every definition of the class '
+            'DetClass (SpecOK of WP-A: unique names, satisfiable join: N, acyclic; a start task; known targets - joins all / one '
+            '/ N, forks, on-error / on-complete, guards that do not fire, several activations, partial joins re-run by late '
+            'branches), every oracle and EVERY plain history (deliveries in any order, pause / resume anywhere, no stop, no lost '
+            'action, executor results = the oracle\'s): sound (at every moment every row is a task of the semantic set and every '
+            'completed row has the prescribed state and next_tasks), complete_at_quiescence (nothing pending and not PAUSED: the '
+            'workflow state is the semantic verdict and the rows are EXACTLY the semantic set of (name, state, next_tasks)), '
+            'quiescent_is_final, hence outcome_schedule_independent (ANY two plain quiescent histories have equal outcomes) and '
+            'pause_resume_same_outcome (a quiescent history with pause / resume anywhere = any quiescent history never paused). '
+            'The two exclusions the first version of these theorems needed were genuine defects, both repaired: the re-opened join '
+            'keeping processed=True (acd6a089) and the stale start request (resume re-queues start_task(first_run=False) for an '
+            'IDLE task; delivered after the task FAILED it ran the task again: repo_patches/20, model follows; '
+            'stale_request_regression + corpus/C02 regression). Ties: stream `sem` (real engine run to quiescence under random '
+            'schedules + pause/resume + cache eviction, compared with the semantics computed by the Lean driver - not with another '
+            'run - and real rows sound on every prefix), stream `core` (every explored schedule equals the one Lean model after '
+            'EVERY event), stream `engine` mode paired (programs with data flow: two schedules, +evict, +restart, equal outcomes), '
+            'stream `ctx`. Local theorems (C02): join_verdict_order_independent, verdict_order_independent, '
+            'merge_order_independent.',
     'note': 'The theorems are about Mistral.Engine (one event = one committed transaction; data flow / expressions / policies / '
             'with-items / sub-workflows outside): published variables and output are covered by merge_order_independent (C05) and '
             'the paired runs only. Outcome = workflow state + SET of rows: the NUMBER of executions of a task that is activated '
